@@ -22,9 +22,10 @@ func init() {
 }
 
 func runC06(c *Ctx) {
+	defer c06AllHostsScheduled(c)
 	c.Rule("C06.R1", "cumulative-weight scan uses an exact idiom (strict comparison)", 4)
 	c.Rule("C06.R2", "draw range equals the sum of the scanned weights; single writer", 4)
-	c.Rule("C06.R3", "EDF deadline update shape: deadline += 1/weight from the current deadline, time advances to served deadline, min-heap order", 6)
+	c.Rule("C06.R3", "EDF deadline update shape: deadline += 1/weight from the current deadline, time advances to served deadline, min-heap order; every host scheduled", 7)
 	c.NotDecided = append(c.NotDecided, "the WRR bounded-lag inequality |n_i/w_i - n_j/w_j| <= 1/w_i + 1/w_j (numeric property of float deadlines)", "uniformity of math/rand")
 	c.Assumptions = append(c.Assumptions, "(*rand.Rand).Intn(n) returns a value in [0,n)")
 
@@ -490,4 +491,36 @@ func rootParam(v ssa.Value) *ssa.Parameter {
 		}
 	}
 	return nil
+}
+
+// c06AllHostsScheduled (R3): the weighted scheduler holds every host of the host set.
+// Balancers are rebuilt only when the host list changes, never when a host's health changes; health is evaluated at
+// choose time. If refresh leaves out the hosts that happen to be unhealthy while it runs, a host that recovers afterwards
+// is never scheduled: it receives no picks at all although it is healthy and has weight w. Clause: inside the Range
+// callback of EdfLoadBalancer.refresh the scheduler's Add runs unconditionally for every host, and the scheduler that was
+// filled is the one published in lb.scheduler.
+func c06AllHostsScheduled(c *Ctx) {
+	fn := c.M("pkg/upstream/cluster", "EdfLoadBalancer", "refresh")
+	if fn == nil {
+		c.Unresolved("C06.R3", "EdfLoadBalancer.refresh")
+		return
+	}
+	var addFn *ssa.Function
+	var add ssa.Instruction
+	forEachInstr(fn, true, func(f *ssa.Function, in ssa.Instruction) {
+		ci, ok := in.(ssa.CallInstruction)
+		if !ok {
+			return
+		}
+		callee := ci.Common().StaticCallee()
+		if callee != nil && callee.Name() == "Add" && strings.Contains(callee.String(), "edfScheduler") {
+			addFn, add = f, in
+		}
+	})
+	if add == nil {
+		c.Fail("C06.R3", funcKey(fn)+":all-hosts-scheduled", fn.Pos(), "refresh does not add hosts to the EDF scheduler")
+		return
+	}
+	uncond := len(guardsAt(add.Block())) == 0 && addFn != fn && add.Block() == addFn.Blocks[0]
+	c.Check("C06.R3", funcKey(fn)+":all-hosts-scheduled", add.Pos(), uncond, "every host of the set is added to the scheduler, whatever its health at build time", "refresh adds a host to the weighted scheduler only under a condition (e.g. its health while the balancer is built): a host that recovers later is never scheduled and gets no picks although it is healthy")
 }
